@@ -280,10 +280,15 @@ impl Sim {
             self.start(i);
         }
         self.pt.inc = voters.clone();
+<<<<<<< HEAD
         // P-level traces only from runs whose application hands out real snapshots: plain
         // MemStorage::snapshot (a test double) raises the snapshot index to the requested one,
         // above the commit index, and a follower then reports uncommitted entries committed
         self.pt.enabled = sim_snap;
+=======
+        self.pt.enabled = true;
+        self.pt.reads = !lease;
+>>>>>>> preadrs
         self.with_mon(|m, s| m.on_boot(s));
     }
 
@@ -406,6 +411,12 @@ impl Sim {
         let role = d.node.raft.state;
         let ppre = (d.node.raft.term, d.node.raft.vote, d.node.raft.state);
         let msgs_before = d.node.raft.msgs.len();
+        // read-index layer (P/Read.v): pending requests and handed-out read states before the call
+        let reads_pre: Option<(Vec<Vec<u8>>, usize)> = if self.pt.enabled && self.pt.reads {
+            Some((d.node.raft.read_only.read_index_queue.iter().cloned().collect(), d.node.raft.read_states.len()))
+        } else {
+            None
+        };
         let o = d.exec(&c);
         let ppost = (d.node.raft.term, d.node.raft.vote, d.node.raft.state);
         let gfrom = match &c {
@@ -440,6 +451,54 @@ impl Sim {
                 let first = lg.first_index();
                 let ents = lg.all_entries();
                 self.pt.observe(nid, first, &ents, lg.committed, &acks);
+                if let Some((pending_pre, rs_pre)) = reads_pre {
+                    let r = &d.node.raft;
+                    let term = r.term;
+                    let mut evs: Vec<(u8, Vec<u8>, u64, u64)> = vec![]; // (kind, ctx, index, peer)
+                    // requests recorded by this call (a leader in Safe mode)
+                    for ctx in r.read_only.read_index_queue.iter() {
+                        if !pending_pre.contains(ctx) {
+                            if let Some(st) = r.read_only.pending_read_index.get(ctx) {
+                                evs.push((10, ctx.clone(), st.index, 0));
+                            }
+                        }
+                    }
+                    let new_msgs: &[Message] = if r.msgs.len() >= msgs_before { &r.msgs[msgs_before..] } else { &[] };
+                    // heartbeat acknowledgements created by this call
+                    for m in new_msgs {
+                        if m.get_msg_type() == MessageType::MsgHeartbeatResponse && !m.context.is_empty() {
+                            evs.push((11, m.context.to_vec(), 0, m.to));
+                        }
+                    }
+                    // reads served by a leader in this call: local read states and responses to forwarded requests
+                    if ppre.2 == StateRole::Leader {
+                        let mut served: Vec<(Vec<u8>, u64)> = vec![];
+                        if r.read_states.len() >= rs_pre {
+                            for rs in &r.read_states[rs_pre..] {
+                                served.push((rs.request_ctx.clone(), rs.index));
+                            }
+                        }
+                        for m in new_msgs {
+                            if m.get_msg_type() == MessageType::MsgReadIndexResp && !m.entries.is_empty() {
+                                served.push((m.entries[0].data.to_vec(), m.index));
+                            }
+                        }
+                        for (ctx, idx) in served {
+                            if !pending_pre.contains(&ctx) && !evs.iter().any(|e| e.0 == 10 && e.1 == ctx) {
+                                // answered at once (the leader alone is the quorum): request and service coincide
+                                evs.push((10, ctx.clone(), idx, 0));
+                            }
+                            evs.push((12, ctx, idx, 0));
+                        }
+                    }
+                    for (k, ctx, idx, peer) in evs {
+                        match k {
+                            10 => self.pt.read_req(nid, &ctx, idx),
+                            11 => self.pt.hb_ack(nid, peer, term, &ctx),
+                            _ => self.pt.read_serve(nid, &ctx, idx),
+                        }
+                    }
+                }
             }
         } else {
             self.pt.crash(nid);
@@ -1040,7 +1099,7 @@ impl Sim {
                 }
             }
             865..=884 => {
-                let ctx = vec![(self.next_payload % 250) as u8, 1, 2];
+                let ctx = vec![(self.next_payload % 250) as u8, (self.next_payload / 250 % 250) as u8, 2];
                 self.next_payload += 1;
                 self.call(i, Call::ReadIndex(ctx));
             }
@@ -1226,7 +1285,7 @@ impl Sim {
                 }
             },
             _ => {
-                let ctx = if self.rng.chance(1, 6) { vec![1, 1, 2] } else { vec![(self.next_payload % 250) as u8, 1, 2] };
+                let ctx = if self.rng.chance(1, 6) && self.adversarial { vec![1, 1, 2] } else { vec![(self.next_payload % 250) as u8, (self.next_payload / 250 % 250) as u8, 2] };
                 self.next_payload += 1;
                 let t = if self.rng.chance(1, 2) { l } else { any };
                 self.call(t, Call::ReadIndex(ctx));
